@@ -39,6 +39,9 @@ pub struct Spec {
     /// further run(n_collect, n_discard) calls on the same sampler object after the first one; their
     /// draws are appended to the first call's (the shape stays the first call's)
     pub more_calls: Vec<(usize, usize)>,
+    /// a plain run(n_collect, n_discard) on the same sampler object BEFORE the judged call (its draws are
+    /// dropped): the judged call then starts from a sampler that has already run
+    pub prior: Option<(usize, usize)>,
 }
 
 pub struct RunOut {
@@ -315,6 +318,11 @@ pub fn is_nuts(kind: &str) -> bool {
 /// Build the sampler from (inputs, seed) and run it once in `mode`.
 pub fn run_spec(spec: &Spec, mode: Mode) -> Result<RunOut, String> {
     let mut s = build(spec)?;
+    if let Some((c, d)) = spec.prior {
+        // on the object the judged call will use (the NUTS wrapper keeps stand-alone chains for the
+        // sequential reference and the library's multi-chain sampler for run / run_progress)
+        let _ = s.run(c, d, if matches!(mode, Mode::Sequential) { Mode::Sequential } else { Mode::Run })?;
+    }
     let mut out = s.run(spec.n_collect, spec.n_discard, mode)?;
     for (c, d) in &spec.more_calls {
         let more = s.run(*c, *d, mode)?;
@@ -355,6 +363,11 @@ pub fn build(spec: &Spec) -> Result<Box<dyn AnySampler>, String> {
         "hmc_f64" => {
             let t = DiffableGaussian2D::new([0.0f64, 1.0], [[4.0, 2.0], [2.0, 3.0]]);
             Box::new(HmcSampler { h: HMC::<f64, BF64, _>::new(t, init_with_seed::<f64>(nc, 2, spec.pos_seed), 0.1, 5).set_seed(spec.seed) })
+        }
+        // a one-dimensional state: [n_collect, n_chains, 1] buffers, where a transpose and a reshape differ
+        "hmc_1d_f64" => {
+            let t = crate::gtargets::GTarget::new(crate::gtargets::GKind::Quartic, 1);
+            Box::new(HmcSampler { h: HMC::<f64, BF64, _>::new(t, init_with_seed::<f64>(nc, 1, spec.pos_seed), 0.2, 3).set_seed(spec.seed) })
         }
         "hmc_rosen_f32" => {
             let t = Rosenbrock2D { a: 1.0f32, b: 10.0f32 };
